@@ -204,8 +204,9 @@ Ref World::apply_stmts_decls(const Op& op)
    case OP_block_new_handler: {
       if (blocks.empty()) { Op o; o.code = OP_make_block; o.a[0] = op.a[0]; nested(o); }
       impl::Block* b = blocks.pick(op.a[0]);
-      const ipr::Name& nm = N(op.a[1]);
-      const ipr::Type& t = T(op.a[2]);
+      // the exception declaration is printed in place by the block: its name and type are older than the block
+      const ipr::Name& nm = No(op.a[1], nref(*b));
+      const ipr::Type& t = To(op.a[2], nref(*b));
       touching = b;
       impl::Handler* h = SUT(b->new_handler(nm, t));
       const ipr::Handler& hi = *h;
@@ -436,7 +437,9 @@ Ref World::apply_stmts_decls(const Op& op)
          if (plists.empty()) { Op o; o.code = OP_make_mapping; o.a[0] = op.a[0]; o.a[1] = op.a[0]; nested(o); }
          pl = plists.pick(op.a[0]);
       }
-      return add_parameter(pl, mp, N(op.a[1]), T(op.a[2]));
+      // a parameter is printed in place by whatever prints its list: its name and type are older than that
+      const Ref bound = bound_for(nref(static_cast<const ipr::Parameter_list&>(*pl)));
+      return add_parameter(pl, mp, No(op.a[1], bound), To(op.a[2], bound));
    }
    case OP_closure_add_capture: {
       if (closures.empty() or decls.empty()) return nullptr;
